@@ -10,7 +10,7 @@ open PolyVerif PolyVerif.StrBuild PolyVerif.GenbankBuild
 open PolyVerif.Lemmas.GbBuild PolyVerif.Lemmas.GbLayout PolyVerif.Lemmas.GbOrigin PolyVerif.Lemmas.GbLocus
 open PolyVerif.Lemmas.GbCompose PolyVerif.Lemmas.GbRoundTrip PolyVerif.Lemmas.GbWrapS PolyVerif.Lemmas.GbLayoutJ
 open PolyVerif.Spec.GbStrict (lines joinSp textJ printable wfLayoutJ wfLayoutG wfRefJ wfOtherJ wfRefIndex refNum sortedEntries
-  wfFeature optSub trimRight)
+  wfFeature optSub trimRight isWord visible)
 open PolyVerif.Spec.GbRoundTrip
 
 /-- a text that `WrapString(_, 68)` wraps without loss -/
@@ -69,21 +69,20 @@ theorem subLines_optSub_G (k : String) {v : Str} (h : Good v) :
 def RefsGood : Nat → List Reference → Prop
   | _, [] => True
   | i, r :: rs =>
-    (Plain r.range ∧ NoNl r.range ∧ Good r.authors ∧ Good r.title ∧ Good r.journal ∧ Good r.pubMed ∧ Good r.remark)
+    (isWord (refNum i r) = true ∧ Plain r.range ∧ NoNl r.range ∧ Good r.authors ∧ Good r.title ∧ Good r.journal ∧ Good r.pubMed ∧ Good r.remark)
       ∧ RefsGood (i + 1) rs
 
 theorem refSpecs_lines_G : ∀ (refs : List Reference) (i : Nat), RefsGood i refs → refsFit i refs = true →
-    wfRefIndex i refs = true →
     specsLines (refSpecs i refs) = GbLayout.refsLines i (refs.map toRRef) (refLayouts i refs)
-  | [], _, _, _, _ => rfl
-  | r :: rs, i, hg, hf, hidx => by
-    simp only [wfRefIndex, Bool.and_eq_true, beq_iff_eq] at hidx
-    have hnum : refNum i r = Location.itoa (i + 1) := by
-      unfold refNum
-      split
-      · rfl
-      · exact hidx.1
-    obtain ⟨⟨hpr, hnr, g2, g3, g4, g5, g6⟩, hgrest⟩ := hg
+  | [], _, _, _ => rfl
+  | r :: rs, i, hg, hf => by
+    obtain ⟨⟨hnumW, hpr, hnr, g2, g3, g4, g5, g6⟩, hgrest⟩ := hg
+    have hvis : ∀ c ∈ refNum i r, visible c = true := by
+      simp only [isWord, Bool.and_eq_true, List.all_eq_true] at hnumW
+      exact hnumW.2
+    have hnumne : refNum i r ≠ [] := by
+      simp only [isWord, Bool.and_eq_true, bne_iff_ne, ne_eq] at hnumW
+      exact hnumW.1
     simp only [refsFit, Bool.and_eq_true] at hf
     obtain ⟨hfit, hrest⟩ := hf
     have e2 : "  ".toList = [' ', ' '] := by decide
@@ -92,17 +91,22 @@ theorem refSpecs_lines_G : ∀ (refs : List Reference) (i : Nat), RefsGood i ref
       unfold refHeadText at hc
       rcases List.mem_append.mp hc with hc | hc
       · rcases List.mem_append.mp hc with hc | hc
-        · have := isSpace_of_isDig (Lemmas.Location.itoa_digits _ c hc)
+        · have := isSpace_of_visible (hvis c hc)
           rw [this] at hsp; exact absurd hsp (by simp)
         · rw [e2] at hc
           simp only [List.mem_cons, List.not_mem_nil, or_false, or_self] at hc
           exact hc
       · exact hpr c hc hsp
     have hnonl : NoNl (refHeadText i r) :=
-      NoNl.append (NoNl.append noNl_of_plain_digits (noNl_lit _ (by decide))) hnr
+      NoNl.append (NoNl.append (fun c hc => visible_ne_nl (hvis c hc)) (noNl_lit _ (by decide))) hnr
     have hheadLines : blockLines "REFERENCE".toList (refHeadText i r)
         = GbLayout.refHeadLines i (toRRef r) (refLayout i r) := by
-      have hnumL : GbLayout.refNumber i (toRRef r) = Str.ofNat (i + 1) := by simp [GbLayout.refNumber, toRRef]
+      have hnumL : GbLayout.refNumber i (toRRef r) = refNum i r := by
+        unfold GbLayout.refNumber refNum toRRef
+        simp only []
+        split
+        · exact ofNat_eq_itoa _
+        · rfl
       unfold GbLayout.refHeadLines
       rw [hnumL]
       by_cases hrne : r.range = []
@@ -110,28 +114,30 @@ theorem refSpecs_lines_G : ∀ (refs : List Reference) (i : Nat), RefsGood i ref
         have hfit : (refHeadText i r).length ≤ 68 := by simpa using hfit
         rw [blockLines_short _ hplain hnonl hfit, if_pos ⟨rfl, by simp [toRRef, hrne]⟩]
         unfold refHeadText
-        rw [hrne, ofNat_eq_itoa]
+        rw [hrne]
         simp [GbLayout.block, GbLayout.wrapText, wrapAux_no_breaks, GbLayout.hang, e2]
       · rw [if_neg hrne] at hfit
         rw [if_neg (by simp [toRRef, hrne])]
         have hhead : GbLayout.refHead i (toRRef r) = refHeadText i r := by
           unfold GbLayout.refHead refHeadText
           rw [hnumL]
-          simp only [toRRef, hrne, if_false, ofNat_eq_itoa]
+          simp only [toRRef, hrne, if_false]
           rw [e2, List.append_assoc]
         have hgood : Good (refHeadText i r) := by
           refine ⟨hplain, hnonl, ?_, by simpa using hfit⟩
           intro c t e
-          obtain ⟨d, t', e', hd⟩ := Location.itoa_cons (i + 1)
-          unfold refHeadText at e
-          rw [e'] at e
-          simp only [List.cons_append, List.cons.injEq] at e
-          rw [← e.1]
-          intro eb; subst eb; revert hd; decide
+          cases hn : refNum i r with
+          | nil => exact absurd hn hnumne
+          | cons d t' =>
+            unfold refHeadText at e
+            rw [hn] at e
+            simp only [List.cons_append, List.cons.injEq] at e
+            rw [← e.1]
+            exact visible_ne_blank (hvis d (by rw [hn]; exact List.mem_cons_self))
         rw [hhead, blockLines_eq_block_G _ hgood]
         simp [refLayout, hrne]
-    have hspec : refNum i r ++ "  ".toList ++ r.range = refHeadText i r := by rw [hnum]; rfl
-    rw [refSpecs, hspec, specsLines_cons, refSpecs_lines_G rs (i + 1) hgrest hrest hidx.2]
+    have hspec : refNum i r ++ "  ".toList ++ r.range = refHeadText i r := rfl
+    rw [refSpecs, hspec, specsLines_cons, refSpecs_lines_G rs (i + 1) hgrest hrest]
     simp only [List.map_cons, refLayouts, GbLayout.refsLines, List.headD_cons, List.tail_cons]
     congr 1
     unfold specLines GbLayout.refLines
@@ -156,7 +162,7 @@ theorem refsGood_of : ∀ (refs : List Reference) (i : Nat), refs.all wfRefJ = t
   | [], _, _, _ => trivial
   | r :: rs, i, hw, hf => by
     simp only [List.all_cons, Bool.and_eq_true] at hw
-    obtain ⟨⟨_, hpl, _, h2, h3, h4, h5, h6⟩, hfrest⟩ := hf
+    obtain ⟨⟨h7, hpl, _, h2, h3, h4, h5, h6⟩, hfrest⟩ := hf
     have hr := hw.1
     simp only [wfRefJ, Bool.and_eq_true] at hr
     obtain ⟨⟨⟨⟨⟨⟨t1, t2⟩, t3⟩, t4⟩, t5⟩, t6⟩, _⟩ := hr
@@ -164,14 +170,14 @@ theorem refsGood_of : ∀ (refs : List Reference) (i : Nat), refs.all wfRefJ = t
       have := t1
       simp only [textJ, Bool.and_eq_true, List.all_eq_true] at this
       exact fun c hc => printable_ne_nl' (this.1.1 c hc)
-    exact ⟨⟨hpl, hnr, good_of_textJ t2 h2, good_of_textJ t3 h3, good_of_textJ t4 h4, good_of_textJ t5 h5,
+    exact ⟨⟨isWord_refNum i r h7, hpl, hnr, good_of_textJ t2 h2, good_of_textJ t3 h3, good_of_textJ t4 h4, good_of_textJ t5 h5,
       good_of_textJ t6 h6⟩, refsGood_of rs (i + 1) hw.2 hfrest⟩
 
 /-- the lines `Build` writes are the C01 layout of the record it was given, with `Build`'s choices -/
 theorem lines_build_eq_layout (x : Sequence) (h : covered x = true) :
     lines (build x MapOrders.id) = PolyVerif.GbLayout.layout (toRec x) (polyLayout x) := by
   simp only [covered, Bool.and_eq_true] at h
-  obtain ⟨⟨⟨⟨⟨⟨hG, _⟩, hidx⟩, _⟩, _⟩, hfit⟩, _⟩ := h
+  obtain ⟨⟨⟨⟨⟨hG, _⟩, _⟩, _⟩, hfit⟩, _⟩ := h
   have f := facts_of_wfLayoutG x hG
   have hj : wfLayoutJ x = true := by
     simp only [wfLayoutG, Bool.and_eq_true] at hG
@@ -209,7 +215,7 @@ theorem lines_build_eq_layout (x : Sequence) (h : covered x = true) :
         ++ PolyVerif.GbLayout.extrasLines (sortedEntries x.metadata.other)
             ((sortedEntries x.metadata.other).map fun kv => breaks kv.2) := by
     rw [headerSpecs, specsLines_append, specsLines_append,
-      refSpecs_lines_G _ 0 (refsGood_of _ 0 hrefs f.refs) hfit hidx,
+      refSpecs_lines_G _ 0 (refsGood_of _ 0 hrefs f.refs) hfit,
       otherSpecs_lines_G _ _ (fun k _ => hgoodOther k)]
     rw [specsLines_cons, specsLines_cons, specsLines_cons, specsLines_cons, specsLines_cons, specsLines_nil,
       specLines_nosub, specLines_nosub, specLines_nosub, specLines_nosub, specLines_onesub,
@@ -239,7 +245,7 @@ theorem parse_build_covered (x : Sequence) (o : MapOrders) (h : covered x = true
 theorem approx_covered (x : Sequence) (h : covered x = true) :
     approx x (PolyVerif.GbLayout.toSequence (toRec x)) = true := by
   simp only [covered, Bool.and_eq_true, Bool.not_eq_true'] at h
-  obtain ⟨⟨⟨⟨⟨⟨_, hnb⟩, hidx⟩, _⟩, _⟩, _⟩, _⟩ := h
+  obtain ⟨⟨⟨⟨⟨_, hnb⟩, _⟩, _⟩, _⟩, _⟩ := h
   have hc : ((if x.metadata.locus.circular = true then some PolyVerif.GbLayout.Topology.circular
         else if x.metadata.locus.linear = true then some PolyVerif.GbLayout.Topology.linear else none)
           == some PolyVerif.GbLayout.Topology.circular) = x.metadata.locus.circular := by
@@ -248,8 +254,10 @@ theorem approx_covered (x : Sequence) (h : covered x = true) :
         else if x.metadata.locus.linear = true then some PolyVerif.GbLayout.Topology.linear else none)
           == some PolyVerif.GbLayout.Topology.linear) = x.metadata.locus.linear := by
     cases hc' : x.metadata.locus.circular <;> cases hl' : x.metadata.locus.linear <;> simp_all <;> decide
+  have hrefs : listApprox refApprox (PolyVerif.Spec.GbStrict.withDefaultIndex x).metadata.references
+      (PolyVerif.GbLayout.toRefs 0 (x.metadata.references.map toRRef)) = true := refs_approx _ 0
   unfold approx PolyVerif.GbLayout.toSequence PolyVerif.GbLayout.toLocus toRec
-  simp only [Bool.and_eq_true, beq_iff_eq, hc, hl, refs_approx _ 0 hidx, feats_approx, and_true,
+  simp only [Bool.and_eq_true, beq_iff_eq, hc, hl, hrefs, feats_approx, and_true,
     beq_self_eq_true]
 
 end PolyVerif.Lemmas.GbRoundTripG
